@@ -35,6 +35,7 @@ ASSUMPTIONS = [
     "a final want line that starts with dots is not a 'Type: message' line and counts as non-traceback text",
 ]
 NSHARDS = {'quick': 16, 'thorough': 16}
+RULE += (' Directed probes: the scope of +IGNORE_EXCEPTION_DETAIL by carrier placement (block, behind code, on opening / closing line of a multi-line statement, next to comment-only and empty continuation lines, on the raising statement itself); an earlier want-less statement raising the documented exception; output printed before an expected exception; outcome exceptions of pytest.')
 
 KINDS = ['builtin', 'builtin_called', 'user', 'user_called', 'dotted', 'module', 'coroutine', 'assert', 'noted', 'syntax',
          'group', 'chained', 'indent', 'taberror']
